@@ -600,12 +600,141 @@ fn documents(src: &mut Src) -> CaseResult {
     }
 }
 
+/// the readers of the coverage-guided target /verif/fuzz/fuzz_targets/documents.rs, in its order
+const FUZZ_READERS: &[&str] = &[
+    "fromjson | tojson",
+    "[fromyaml] | map(toyaml, tojson)",
+    "[fromxml] | map(toxml, tojson)",
+    "fromtoml | totoml, tojson",
+    "[fromcbor] | map(tocbor, tojson)",
+    "[fromcsv] | map(tocsv, tojson)",
+    "[fromtsv] | map(totsv, tojson)",
+    "[fromyaml] | map(tocbor | fromcbor | tojson)",
+];
+
+/// One input of the libFuzzer target `documents`, run in-process (replay of its artifacts).
+fn fuzz_document(data: &[u8], sample: bool) -> CaseResult {
+    let Some((sel, doc)) = data.split_first() else { return Ok(CaseOk::trivial()) };
+    let k = (*sel as usize) % FUZZ_READERS.len();
+    let input = if k == 4 { MVal::BStr(doc.to_vec()) } else { MVal::TStr(doc.to_vec()) };
+    let case = || json!({"reader": FUZZ_READERS[k], "document": String::from_utf8_lossy(&doc[..doc.len().min(400)]), "document_hex": doc.iter().take(400).map(|b| format!("{b:02x}")).collect::<String>()});
+    match jq::eval(FUZZ_READERS[k], &[], input.to_val(), 64) {
+        Err(e) => Err(CaseFail::new("harness", e, case())),
+        Ok(outs) => match outs.last() {
+            Some(Out::Panic(p)) => Err(CaseFail::new(format!("panic:{}", jq::panic_sig(p)), p.clone(), case())),
+            last => Ok(CaseOk::new(true, fnv(data)).class(if matches!(last, Some(Out::Val(_))) { "accepted" } else { "rejected" }).desc(if sample { Some(case()) } else { None })),
+        },
+    }
+}
+
+fn fuzz_filter_text(data: &[u8], sample: bool) -> CaseResult {
+    let Ok(code) = std::str::from_utf8(data) else { return Ok(CaseOk::trivial()) };
+    let case = || json!({"filter": code.chars().take(400).collect::<String>()});
+    match jq::guarded(|| jq::compile(code, &["x"]).is_ok()) {
+        Err(p) => Err(CaseFail::new(format!("panic:{}", jq::panic_sig(&p)), p, case())),
+        Ok(compiles) => Ok(CaseOk::new(true, fnv(data)).class(if compiles { "compiles" } else { "rejected" }).desc(if sample { Some(case()) } else { None })),
+    }
+}
+
+/// Coverage-guided campaigns (cargo-fuzz / libFuzzer, address sanitizer, debug assertions) on the two
+/// byte-level fronts. A crash artifact is re-run in-process to obtain its signature; its bytes are the replay.
+struct Campaign {
+    sub: &'static str,
+    oks: Vec<CaseOk>,
+    fails: Vec<(CaseFail, Vec<u8>)>,
+    wall_s: f64,
+    stats: serde_json::Value,
+}
+
+fn campaign(root: &str, seed: u64, runs: u64, target: &'static str, sub: &'static str) -> Campaign {
+    let t0 = std::time::Instant::now();
+    let corpus = format!("{root}/target/fuzz-corpus/{target}-{seed}");
+    let arts = format!("{root}/target/fuzz-artifacts/{target}-{seed}/");
+    let _ = std::fs::remove_dir_all(&corpus);
+    let _ = std::fs::remove_dir_all(&arts);
+    let _ = std::fs::create_dir_all(&corpus);
+    let _ = std::fs::create_dir_all(&arts);
+    if let Ok(rd) = std::fs::read_dir(format!("{root}/fuzz/seeds/{target}")) {
+        for e in rd.flatten() {
+            let _ = std::fs::copy(e.path(), format!("{corpus}/{}", e.file_name().to_string_lossy()));
+        }
+    }
+    let not_run = |why: serde_json::Value, t0: std::time::Instant| Campaign { sub, oks: vec![], fails: vec![], wall_s: t0.elapsed().as_secs_f64(), stats: json!({"not_run": why}) };
+    let out = std::process::Command::new("cargo")
+        .args(["+nightly", "fuzz", "run", "--fuzz-dir", &format!("{root}/fuzz"), "--target-dir", &format!("{root}/target/fuzz"), target, &corpus, "--"])
+        .args([&format!("-runs={runs}"), &format!("-seed={}", seed.max(1)), "-max_len=4096", "-len_control=0", "-timeout=20", "-rss_limit_mb=4000", "-print_final_stats=1", &format!("-artifact_prefix={arts}")])
+        .env("CARGO_NET_OFFLINE", "true")
+        .output();
+    let out = match out {
+        Ok(o) => o,
+        Err(e) => return not_run(json!(e.to_string()), t0),
+    };
+    let err = String::from_utf8_lossy(&out.stderr).into_owned();
+    let stat = |name: &str| err.lines().find_map(|l| l.strip_prefix(&format!("stat::{name}:")).and_then(|x| x.trim().parse::<u64>().ok())).unwrap_or(0);
+    let executed = stat("number_of_executed_units");
+    if executed == 0 && !err.contains("SUMMARY") && !err.contains("panicked") {
+        // the target did not build or start: no verdict about jaq
+        return not_run(json!(err.lines().rev().take(8).collect::<Vec<_>>()), t0);
+    }
+    let bin = format!("{root}/target/fuzz/x86_64-unknown-linux-gnu/release/{target}");
+    let mut fails = Vec::new();
+    let mut resource = 0;
+    if let Ok(rd) = std::fs::read_dir(&arts) {
+        for e in rd.flatten() {
+            let name = e.file_name().to_string_lossy().into_owned();
+            let Ok(bytes) = std::fs::read(e.path()) else { continue };
+            // what the instrumented target says about this input
+            let rerun = std::process::Command::new(&bin).arg(e.path()).output().map(|o| String::from_utf8_lossy(&o.stderr).into_owned()).unwrap_or_default();
+            // exhaustion of stack or memory (and libFuzzer's own time/memory limits) is the documented exception
+            if !name.starts_with("crash-") || rerun.contains("stack-overflow") || rerun.contains("out-of-memory") || rerun.contains("allocation-size-too-big") || rerun.contains("memory allocation of") {
+                resource += 1;
+                continue;
+            }
+            let r = if target == "documents" { fuzz_document(&bytes, false) } else { fuzz_filter_text(&bytes, false) };
+            let fail = match r {
+                Err(f) => f,
+                // shows under the instrumented build only (sanitizer finding, or a panic the plain build does not reach)
+                Ok(_) => CaseFail::new("crash-under-libfuzzer-only", rerun.lines().filter(|l| l.contains("panicked") || l.contains("SUMMARY") || l.contains("ERROR")).take(4).collect::<Vec<_>>().join(" | "), json!({"target": target, "artifact": name, "bytes_hex": bytes.iter().take(300).map(|x| format!("{x:02x}")).collect::<String>()})),
+            };
+            fails.push((fail, bytes));
+        }
+    }
+    let files: Vec<std::path::PathBuf> = std::fs::read_dir(&corpus).map(|rd| rd.flatten().map(|e| e.path()).collect()).unwrap_or_default();
+    let stats = json!({"executed_units": executed, "new_units_added": stat("new_units_added"), "corpus_files": files.len(), "resource_artifacts_not_counted": resource, "coverage_edges": err.lines().rev().find(|l| l.contains("cov:")).map(|l| l.split_whitespace().skip_while(|w| *w != "cov:").nth(1).unwrap_or("").to_string())});
+    // non-trivial = inputs that libFuzzer kept because they reached new coverage
+    let keys: Vec<u64> = files.iter().map(|p| fnv(p.file_name().unwrap().to_string_lossy().as_bytes())).collect();
+    let sample = files.get(files.len() / 2).and_then(|p| std::fs::read(p).ok()).map(|b| json!({"target": target, "kept_input_hex": b.iter().take(200).map(|x| format!("{x:02x}")).collect::<String>(), "as_text": String::from_utf8_lossy(&b[..b.len().min(200)])}));
+    Campaign { sub, oks: vec![CaseOk::new(false, 0).bundle(executed, keys).class("libfuzzer-campaign").desc(sample)], fails, wall_s: t0.elapsed().as_secs_f64(), stats }
+}
+
+/// Coverage-guided campaigns (cargo-fuzz / libFuzzer, address sanitizer, debug assertions) on the two
+/// byte-level fronts, side by side. A crash artifact is classified by re-running the instrumented target
+/// on it, and re-run in-process to obtain its signature; its bytes are the replay.
+fn libfuzzer_stage(rep: &mut Report, runs: u64) {
+    let root = rep.root().to_string();
+    let seed = rep.seed;
+    // build once, so that the two campaigns do not race for the build lock
+    let _ = std::process::Command::new("cargo").args(["+nightly", "fuzz", "build", "--fuzz-dir", &format!("{root}/fuzz"), "--target-dir", &format!("{root}/target/fuzz")]).env("CARGO_NET_OFFLINE", "true").output();
+    let (a, b) = std::thread::scope(|sc| {
+        let (r1, r2) = (root.clone(), root.clone());
+        let h1 = sc.spawn(move || campaign(&r1, seed, runs, "documents", "libfuzzer-documents"));
+        let h2 = sc.spawn(move || campaign(&r2, seed, runs, "filter_text", "libfuzzer-filter-text"));
+        (h1.join().unwrap(), h2.join().unwrap())
+    });
+    for c in [a, b] {
+        rep.extra(&format!("{}-stats", c.sub), c.stats);
+        if !c.oks.is_empty() || !c.fails.is_empty() {
+            rep.external(c.sub, c.oks, c.fails, c.wall_s);
+        }
+    }
+}
+
 pub fn run(mut rep: Report) -> ! {
     rep.set_rule(
         "(1) filter texts: programs of the C01 generator and the manual's examples under 1-4 character/token-level mutations (delete, duplicate, swap, truncate, insert one of 90 tokens incl. unbalanced delimiters, unterminated strings/escapes/interpolations, comment continuations, multi-byte and control characters) -> load + compile with all diagnostics rendered plain and painted; \
          (2) every named filter of the current tree (natives and definitions, discovered at run time, with 1-6 shapes for filter arguments) plus operators, path forms, patterns, format strings and date/regex forms x inputs and value arguments from a pool of ~230 boundary values (integer boundaries in both representations incl. a big-integer zero, NaN/infinities/-0.0, decimal literals, empty/multi-byte/invalid-UTF-8 strings, byte strings incl. CBOR fragments, regex and format strings, date strings, broken-down times, slices, nested containers, non-string keys): exhaustive over the pool for arity 0 and 1 and over sub-pools (every 6th value in quick, every 3rd in thorough) for arity 2 and 3, executed in child processes under a 3 GiB address-space limit; \
          (3) documents: hand-written documents with each format's special constructs (YAML anchors/aliases/tags/merge keys/block scalars, XML declaration/DOCTYPE/entities/CDATA/PIs/namespaces, TOML tables/arrays of tables/dates, CSV/TSV quoting and escapes, XJON extensions) and documents written by jaq from generated values, under 0-4 byte-level mutations -> decoder -> every produced value through every encoder; \
-         non-trivial = mutated text (1), a call that yields a value (2), a mutated document (3); a panic anywhere is a violation; memory exhaustion, stack exhaustion and runs beyond the time limit are the documented exceptions: located, counted and skipped",
+         (4, thorough tier) coverage-guided campaigns with cargo-fuzz/libFuzzer (address sanitizer, debug assertions) on filter texts (parse + compile + rendering of reports) and on documents (first byte selects one of 8 reader/writer chains), 2 x 4 million executions from a seed corpus of golden documents, crash artifacts re-run in-process; non-trivial = mutated text (1), a call that yields a value (2), a mutated document (3), an input kept by libFuzzer for new coverage (4); a panic anywhere is a violation; memory exhaustion, stack exhaustion and runs beyond the time limit are the documented exceptions: located, counted and skipped",
     );
     rep.assume("compiled filters of mutated texts are not executed (a mutated program may recurse or loop without bound, which the property excepts); execution crash-freedom is front (2) and C01");
     rep.assume("memory exhaustion (abort on failed allocation under the address-space limit), stack overflow and runs exceeding 20 s per chunk are not violations: the case is identified by re-running its chunk with tracing, counted in `excluded_resource_cases` and skipped");
@@ -617,9 +746,22 @@ pub fn run(mut rep: Report) -> ! {
         rep.random("filter-text-mutations", n, 200, move |src| filter_text(src, ex));
     }
     rep.random("document-mutations", n, 200, documents);
+    // replay entry points of the coverage-guided campaigns (0 generated cases here: libFuzzer generates)
+    rep.random("libfuzzer-documents", 0, 4096, |src| {
+        let s = src.sample;
+        fuzz_document(src.rest(), s)
+    });
+    rep.random("libfuzzer-filter-text", 0, 4096, |src| {
+        let s = src.sample;
+        fuzz_filter_text(src.rest(), s)
+    });
 
     // (2) natives in child processes
     if !matches!(rep.mode, vcore::runner::Mode::Run) || std::env::var("VERIF_SUB").map_or(false, |s| !s.is_empty() && s != "natives") {
+        if matches!(rep.mode, vcore::runner::Mode::Run) && std::env::var("VERIF_SUB").map_or(false, |s| s.starts_with("libfuzzer")) {
+            let runs = std::env::var("VERIF_LIBFUZZER").ok().and_then(|s| s.parse().ok()).unwrap_or(4_000_000);
+            libfuzzer_stage(&mut rep, runs);
+        }
         rep.finish()
     }
     let space = Space::new(quick);
@@ -712,5 +854,10 @@ pub fn run(mut rep: Report) -> ! {
     }
     rep.extra("natives_value_results", json!(values));
     rep.extra("natives_error_results", json!(errors));
+    // (4) coverage-guided campaigns, thorough tier only (building the instrumented targets takes minutes)
+    if !quick || std::env::var("VERIF_LIBFUZZER").is_ok() {
+        let runs = std::env::var("VERIF_LIBFUZZER").ok().and_then(|s| s.parse().ok()).unwrap_or(4_000_000);
+        libfuzzer_stage(&mut rep, runs);
+    }
     rep.finish()
 }
